@@ -90,7 +90,38 @@ def padded_shard(shard):
     return p
 
 
+def sweep_shard(shard):
+    """The operand sweep of C01/C02 with the interlock off: one instruction with preset operands between marker instructions
+    that depend on nothing — every register dependency is further than three slots away, so the results equal single-cycle mode."""
+    from vf.checks import c01, c02
+    cls, op, seed, part, parts = shard
+    c01.LITE = True
+    p = Partial()
+    for i, (ins, regs, words, at) in enumerate(c01.GEN[cls](op, seed, False)):
+        if i % parts != part:
+            continue
+        pm = c02.padded(ins, regs, at)
+        one, bad = c02.compare_modes(pm, regs, words, 12, at, hazard=False)
+        p.evaluations += 1
+        p.counters["hazard-free-operand-sweep"] += 1
+        if len(one.retired) > 1 or one.err is not None:
+            p.nontrivial += 1
+        for f, d in bad:
+            c = c02.case_of(pm, regs, words, 12, at)
+            c["kind"] = "sweep-nohazard"
+            p.violation(dict(oracle="hazard-free-equals-single-cycle", field=f, op=ins[0]), c,
+                        f"{c02._ptxt(pm)} start={at} regs={ {k: hex(v) for k, v in regs.items()} } hazard_detection=False: {d}", size=(1, i))
+    return p
+
+
 def replay(case):
+    if case.get("kind") == "sweep-nohazard":
+        from vf.checks import c02
+        progmap = {int(a): tuple(i) for a, i in case["progmap"].items()}
+        regs = {int(k): v for k, v in case["regs"].items()}
+        words = {int(k): v for k, v in case["words"].items()}
+        _one, bad = c02.compare_modes(progmap, regs, words, case["steps"], case.get("pc0", 0), hazard=False)
+        return [(dict(oracle="hazard-free-equals-single-cycle", field=f), f"{c02._ptxt(progmap)}: {d}") for f, d in bad]
     prog, regs, words, maxc, hazard = pipecmp.case_args(case)
     if case.get("kind") == "padded":
         pd = {4 * i: ins for i, ins in enumerate(prog)}
@@ -149,6 +180,16 @@ def run(ctx):
     pipecmp.fixed_point(ctx, seed, False, False, 12, "fixed-point-F12-nohazard")
     if thorough:
         pipecmp.fixed_point(ctx, seed, True, False, 12, "fixed-point-F16-nohazard")
+    from vf.checks import c01
+    t0 = time.time()
+    shards = []
+    for cls, _g, ops in c01.CLASSES:
+        parts = {"rtype": 8, "itype": 2, "utype": 1, "branch": 4, "jalr": 4}.get(cls, 2)
+        for op in ops:
+            shards += [(cls, op, seed, part, parts) for part in range(parts)]
+    part = pmap(sweep_shard, shards)
+    ctx.space("operand-sweep-nohazard", part, t0, note="every mnemonic with boundary operands between independent marker instructions, interlock off, vs single-cycle mode")
+    ctx.require("hazard-free-operand-sweep")
     for L in range(1, (3 if ctx.quick else 4) + 1):
         t0 = time.time()
         part = pmap(padded_shard, [(seed, L, f, nstates, steps) for f in range(18)])
